@@ -567,3 +567,18 @@ func (p *IdP) PublishExtraKey(i int) {
 	keys = append(keys, k)
 	p.Keys = keys
 }
+
+// Mint issues a token set as if a login had completed (lineage registered, refresh token valid), without any
+// request to the provider: used to plant sessions directly in a store.
+func (p *IdP) Mint(sub string) (idToken, accessToken, refreshToken string, exp time.Time) {
+	p.mu.Lock()
+	defer p.mu.Unlock()
+	now := p.Now()
+	lin := &Lineage{N: len(p.lineages), Sub: sub}
+	p.lineages = append(p.lineages, lin)
+	rt := p.marker("rt")
+	lin.Current, lin.All = rt, []string{rt}
+	p.byRT[rt] = lin
+	claims := map[string]any{"iss": p.Base(), "sub": sub, "aud": p.ClientID, "exp": now.Add(p.IDTTL).Unix(), "iat": now.Unix()}
+	return HonestToken(p.SignKey, claims), p.marker("at"), rt, now.Add(time.Hour)
+}
